@@ -90,23 +90,42 @@ def file_facts(src):
             k = src.index('{', k); body, k = balanced(k, '{', '}')
             fields = [parse_type(re.sub(r'^\s*(pub(\([a-z]+\))?\s+)?\w+\s*:', '', f, count=1)) for f in split_top(body) if ':' in f]
         structs.setdefault(name, fields)
+    # the bounds every struct puts on its own parameters (generics list and where clause): an impl has to repeat them
+    base = {}
+    for m in re.finditer(r'\bstruct\s+(\w+)\s*<([^>]*)>\s*(where([^{(;]*))?', src, flags=re.S):
+        b = base.setdefault(m.group(1), {})
+        for g in split_top(m.group(2)):
+            g = g.split('=')[0]
+            if ':' in g:
+                p_, bs = g.split(':', 1)
+                b.setdefault(p_.strip(), set()).update(x.strip() for x in bs.split('+'))
+        for clause in split_top(m.group(4) or ''):
+            if ':' in clause:
+                p_, bs = clause.split(':', 1)
+                b.setdefault(p_.strip(), set()).update(x.strip() for x in bs.split('+'))
     impls = {}
     # every explicit impl of Send/Sync, safe or not, with or without where clause
     for m in re.finditer(r'\bimpl\s*<([^>]*)>\s*(!?)\s*(Send|Sync)\s+for\s+(\w+)\s*<[^>]*>\s*(where([^{]*))?\{', src, flags=re.S):
         if m.group(2) == '!':
             raise ValueError('negative impl: not supported by the translator')
         bounds = []
+        own = base.get(m.group(4), {})
+        def add(p, b):
+            b = b.strip()
+            if not b: return
+            if b in ('Send', 'Sync'): bounds.append((p, b))
+            elif b not in own.get(p, set()) and (p, 'Extra') not in bounds:
+                # a lifetime bound or a trait the struct itself does not ask for: the impl covers fewer instantiations
+                bounds.append((p, 'Extra'))
         # bounds written inline in the generics list
         for g in split_top(m.group(1)):
             if ':' in g:
                 p, bs = g.split(':', 1)
-                for b in bs.split('+'):
-                    if b.strip() in ('Send', 'Sync'): bounds.append((p.strip(), b.strip()))
+                for b in bs.split('+'): add(p.strip(), b)
         for clause in split_top(m.group(6) or ''):
             if ':' not in clause: continue
             p, bs = clause.split(':', 1); p = p.strip()
-            for b in bs.split('+'):
-                if b.strip() in ('Send', 'Sync'): bounds.append((p, b.strip()))
+            for b in bs.split('+'): add(p, b)
         key = (m.group(4), m.group(3))
         if key in impls:
             raise ValueError(f'two explicit impls of {key[1]} for {key[0]}')
